@@ -178,6 +178,19 @@ CATALOGUE = [
         for accessor_name, synt_id in self._LOCAL_SYNTAX.items():
             color_fmt = colors_conf.get_color(synt_id)
 """, note="a synced palette is refreshed only the first time it meets a configuration"),
+    dict(id="m13_partial_widths", prop="C13", file="ak/ppobj.py",
+         old="""                if widths[i] < col.max_width:
+                    widths[i] = max(
+                        widths[i], min(col.max_width, col.get_cell_text_len(rec))
+                    )
+""",
+         new="""                if widths[i] < col.max_width:
+                    widths[i] = max(
+                        widths[i], min(col.max_width, col.get_cell_text_len(rec))
+                    )
+                    col.width = widths[i]
+""", note="the original defect (fixed in /repo): widths are stored while the records are still being looked at; "
+          "an exception at the first print leaves partial widths that count as final"),
     dict(id="m14_synced_report_stale", prop="C14", file="ak/color.py",
          old="""            color_fmt = colors_conf.get_color(synt_id)
             self._local_colors[accessor_name] = (synt_id, color_fmt)
